@@ -5,6 +5,7 @@ import Gemato.Model.Hash
 import Gemato.Model.VerifyDir
 import Gemato.Model.FindTop
 import Gemato.Model.Profile
+import Gemato.Model.Save
 /-
   Line-protocol driver: one JSON request per input line, one JSON reply per
   output line. Strings travel as arrays of code points.
@@ -207,7 +208,10 @@ def jErr : L1.Err → Json
   | .unsupportedHash => Json.mkObj [("err", "unsupportedhash")]
   | .os e => Json.mkObj [("err", Json.str s!"os:{repr e}")]
   | .compress => Json.mkObj [("err", "compress")]
-  | .internal k => Json.mkObj [("err", Json.str s!"internal:{repr k}")]
+  | .internal k => Json.mkObj [("err", Json.str (match k with
+      | .index => "internal:IndexError" | .assertion => "internal:AssertionError" | .attribute => "internal:AttributeError"
+      | .key => "internal:KeyError" | .valueError => "internal:ValueError" | .overflowError => "internal:OverflowError"
+      | .type => "internal:TypeError" | .other => "internal:NotImplementedError"))]
   | .abstain => Json.mkObj [("err", "abstain")]
 
 def getHandler (req : Json) : Except String L1.Handler := do
@@ -336,6 +340,51 @@ def opProfileFn (req : Json) : Except String Json := do
       match o.format with | some f => jStr f | none => Json.null])])
   | _ => .error s!"bad fn {fn}"
 
+open L1 in
+def getFileMeta (o : Json) : Except String L1.FileMeta := do
+  let dig ← (← (← o.getObjVal? "dig").getArr?).toList.mapM fun kv => do
+    let p ← kv.getArr?
+    pure ((← getStr p[0]!), (← getStr p[1]!))
+  pure { dev := ← (← o.getObjVal? "dev").getNat?, stSize := ← (← o.getObjVal? "stsize").getNat?,
+         size := ← (← o.getObjVal? "size").getNat?, mtime := ← (← o.getObjVal? "mtime").getInt?,
+         digests := dig, manifest := none }
+
+def jWrite : U.Write → Json
+  | .file p t => Json.arr #[Json.str "w", jStr p, jStr t]
+  | .unlink p => Json.arr #[Json.str "u", jStr p]
+
+/-- update: {world, top, path, create, xdev, hashes, profile, last_mtime, save:{force, sort, watermark, format}, post:[[path, meta]]} -/
+def opUpdate (req : Json) : Except String Json := do
+  let root ← getNode (← req.getObjVal? "world")
+  let w : L1.World := ⟨root⟩
+  let top ← getStr (← req.getObjVal? "top")
+  let path ← getStr (← req.getObjVal? "path")
+  let create ← (← req.getObjVal? "create").getBool?
+  let xdev ← (match req.getObjVal? "xdev" with | .ok j => j.getBool? | .error _ => pure true)
+  let hashes ← getStrs (← req.getObjVal? "hashes")
+  let prof ← getProfile (← (← req.getObjVal? "profile").getStr?)
+  let lm ← getOptInt req "last_mtime"
+  let sv ← req.getObjVal? "save"
+  let wm ← (match sv.getObjVal? "watermark" with | .ok Json.null => pure none | .ok j => (j.getNat?).map some | .error _ => pure none)
+  let so : U.SaveOpts := { hashes := hashes, force := ← (← sv.getObjVal? "force").getBool?, sort := ← (← sv.getObjVal? "sort").getBool?,
+                           watermark := wm, format := ← getStr (← sv.getObjVal? "format"), profile := prof }
+  let postL ← (← (← req.getObjVal? "post").getArr?).toList.mapM fun kv => do
+    let a ← kv.getArr?
+    pure ((← getStr a[0]!), (← getFileMeta a[1]!))
+  let post : Str → Option L1.FileMeta := fun p => (postL.find? (·.1 == p)).map (·.2)
+  let doSave ← (match req.getObjVal? "do_save" with | .ok j => j.getBool? | .error _ => pure true)
+  let r : Except L1.Err (U.St × List U.Write) := do
+    let s ← U.openForUpdate w top create prof xdev
+    let s1 ← U.updateDir w s path { hashes := hashes, profile := prof, lastMtime := lm }
+    if doSave then U.saveAll w post s1 so else pure (s1, [])
+  pure (Json.mkObj [("model", match r with
+    | .error e => jErr e
+    | .ok (s, ws) => Json.mkObj [
+        ("writes", Json.arr (ws.toArray.map jWrite)),
+        ("top", jStr s.top),
+        ("updated", Json.arr (s.updated.toArray.map jStr)),
+        ("loaded", Json.arr (s.loaded.toArray.map fun (k, _) => Json.arr #[jStr k, Json.arr ((s.entriesOf k).toArray.map fun ie => jEntry ie.2)]))])])
+
 def dispatch (req : Json) : Except String Json := do
   let op ← (← req.getObjVal? "op").getStr?
   match op with
@@ -351,6 +400,7 @@ def dispatch (req : Json) : Except String Json := do
   | "lookup" => opLookup req
   | "find_top" => opFindTop req
   | "profile_fn" => opProfileFn req
+  | "update" => opUpdate req
   | _ => .error s!"unknown op {op}"
 
 end Drv
